@@ -67,8 +67,8 @@ CLAIMED.update({
 })
 CLAIMED.update({
     "C04": ("Open system, every arrival history: c04_sender_abort_only_after_budget / c04_receiver_abort_only_after_budget (the only ways to fail), c04_timeout_resends_window, c04_progress_renews_budget, "
-            "c04_reack_on_retransmission, c04_accept_renews_budget, c04_six_le_budget. Closed system: the general claim (fewer than 6 losses => byte-identical copy) is NOT proved (c04_closed_loop_partial is a "
-            "small anchor); it is enumerated: the real Worker::send and Worker::receive run in an in-memory FIFO closed loop for every single fault at every position (w 1..4), sampled pairs, random schedules "
+            "c04_reack_on_retransmission, c04_accept_renews_budget, c04_six_le_budget. Closed system: c04_closed_loop_safety (every fault schedule: accepted blocks are 1..j of the file, success => identical file, N <= 65535) and the fault-free liveness theorem (C14) are proved; liveness under 1..5 losses is NOT proved, "
+            "it is enumerated: the real Worker::send and Worker::receive run in an in-memory FIFO closed loop for every single fault at every position (w 1..4), sampled pairs, random schedules "
             "with up to 5 losses, and must agree with the Lean simulator on outcome, datagram counts and number of time-outs. Partial: real timer skew, reordering in the closed loop.", "5/C04",
             "Lean 4 open-system theorems + exhaustive single-fault enumeration in a real-worker closed loop diffed against the Lean simulator"),
     "C12": ("c12_routing, c12_frame, c12_commute, c12_projection (for every interleaving each transfer's state and output equal its solo run on its own datagrams — for any per-transfer step function), "
